@@ -145,6 +145,14 @@ def vcf_rec(i, w):
     return ["\t".join([chrom, str(pos), vid, ref, alt, qual, flt, info])], [chrom, pos - 1, vid, ref, alt, qual, flt, info]
 
 
+def vcfd_rec(i, w):
+    """VCF record of a file whose header declares the INFO keys: the info column is a typed table (missing Integer = 0, Float = nan)."""
+    lines, exp = vcf_rec(i, w)
+    sel = (i + w) % 3
+    exp = exp[:-1] + [[0 if sel == 0 else i, repr(0.5) if sel == 2 else "nan"]]
+    return lines, exp
+
+
 def sam_rec(i, w):
     name = "r" + _name(i, _w(i, w))
     flag = [0, 16, 99, 147][i % 4]
@@ -189,6 +197,9 @@ FORMATS = {
     "narrowpeak": dict(suffix=".narrowPeak", rec=narrowpeak_rec, exact=False, family="delim", header=""),
     "vcf":       dict(suffix=".vcf", rec=vcf_rec, exact=False, family="delim",
                       header="##fileformat=VCFv4.2\n#CHROM\tPOS\tID\tREF\tALT\tQUAL\tFILTER\tINFO\n"),
+    "vcfd":      dict(suffix=".vcf", rec=vcfd_rec, exact=False, family="delim",
+                      header="##fileformat=VCFv4.2\n##INFO=<ID=DP,Number=1,Type=Integer,Description=\"d\">\n"
+                             "##INFO=<ID=AF,Number=1,Type=Float,Description=\"a\">\n#CHROM\tPOS\tID\tREF\tALT\tQUAL\tFILTER\tINFO\n"),
     "sam":       dict(suffix=".sam", rec=sam_rec, exact=False, family="delim", header="@HD\tVN:1.6\tSO:unsorted\n@SQ\tSN:ca\tLN:1000\n"),
     "gtf":       dict(suffix=".gtf", rec=gtf_rec, exact=False, family="delim", header=""),
     # GFF3 with directive / comment lines between the records (C15: they are not records and are not counted as lines of data)
